@@ -222,4 +222,11 @@ class ChargingStation(VehicleState):
         :return: an exception due to failure or an optional updated simulation
         """
 
+        if self._has_reached_terminal_state_condition(sim, env):
+            # already full in the step the plug was granted (default_update performs the new
+            # activity's update right after entering it): there is nothing to charge. failing
+            # here would roll the grant back and the vehicle would be passed over at the head of
+            # the queue, step after step; the next update leaves through the terminal condition.
+            return None, sim
+
         return charge(sim, env, self.vehicle_id, self.station_id, self.charger_id)
